@@ -191,6 +191,10 @@ func convertTypesToMethodType(t types.Type) MethodType {
 	// Handle pointer
 	if ptr, ok := t.(*types.Pointer); ok {
 		inner := convertTypesToMethodType(ptr.Elem())
+		if inner.IsPointer {
+			// deeper pointers are different types: keep the extra levels in the name
+			inner.TypeName = "*" + inner.TypeName
+		}
 		inner.IsPointer = true
 		return inner
 	}
